@@ -30,6 +30,7 @@ class SqlSite:
     receiver: str
     call: ast.Call
     texts: set = field(default_factory=set)  # str values (may contain ⟦holes⟧) or Hole
+    params: set = field(default_factory=set)  # folded values of the bound-parameter argument
     params_in_text: set = field(default_factory=set)
 
     @property
@@ -313,6 +314,8 @@ class SqlCensus:
                             continue
                         vals = sse.evalset(m, call.args[0], env)
                         site = SqlSite(fi, call.lineno, call.col_offset, f.attr, recv, call, set(vals))
+                        if len(call.args) > 1:
+                            site.params = set(sse.evalset(m, call.args[1], env))
                         self.sites.append(site)
                     # record constant arguments of calls, for parameter enumeration
                     name = None
@@ -338,6 +341,7 @@ class SqlCensus:
         for s in self.sites:
             if s.key in seen:
                 seen[s.key].texts |= s.texts
+                seen[s.key].params |= s.params
             else:
                 seen[s.key] = s
         self.sites = sorted(seen.values(), key=lambda s: (s.func.module.name, s.lineno, s.col))
